@@ -43,13 +43,14 @@ class TdmsTimestamp(object):
                 Must be one of 's', 'ms', 'us', 'ns' or 'ps'
         """
         try:
-            fractions_per_step = _fractions_per_step[resolution]
+            steps_per_second = _steps_per_second[resolution]
         except KeyError:
             raise ValueError("Unsupported resolution for converting to numpy datetime64: '{0}'".format(resolution))
+        fractions = min(int(self.second_fractions) + _FRACTIONS_TOLERANCE, _MAX_FRACTIONS)
         return (
                 EPOCH +
                 np.timedelta64(self.seconds, 's') +
-                ((self.second_fractions / fractions_per_step) * np.timedelta64(1, resolution)))
+                np.timedelta64((fractions * steps_per_second) >> 64, resolution))
 
     def as_datetime(self):
         """ Convert this timestamp to a Python datetime.datetime object
@@ -120,13 +121,45 @@ class TimestampArray(np.ndarray):
                 Must be one of 's', 'ms', 'us', 'ns' or 'ps'
         """
         try:
-            fractions_per_step = _fractions_per_step[resolution]
+            steps_per_second = _steps_per_second[resolution]
         except KeyError:
             raise ValueError("Unsupported resolution for converting to numpy datetime64: '{0}'".format(resolution))
+        fractions = np.minimum(
+            self['second_fractions'], np.uint64(_MAX_FRACTIONS - _FRACTIONS_TOLERANCE)) + np.uint64(_FRACTIONS_TOLERANCE)
+        steps = _multiply_high(fractions, steps_per_second)
         return (
                 EPOCH +
                 self['seconds'] * np.timedelta64(1, 's') +
-                (self['second_fractions'] / fractions_per_step) * np.timedelta64(1, resolution))
+                steps.astype(np.int64) * np.timedelta64(1, resolution))
+
+
+_steps_per_second = {
+    's': 1,
+    'ms': 10 ** 3,
+    'us': 10 ** 6,
+    'ns': 10 ** 9,
+    'ps': 10 ** 12,
+}
+
+# Second fractions are often computed using double precision arithmetic, so can be
+# slightly less than the exact value. Allow for an error of 2^-53 seconds when truncating.
+_FRACTIONS_TOLERANCE = 2 ** 11
+_MAX_FRACTIONS = 2 ** 64 - 1
+
+
+def _multiply_high(values, factor):
+    """ Computes (values * factor) // 2**64 exactly for an array of uint64 values and a factor < 2**64
+    """
+    mask = np.uint64(0xFFFFFFFF)
+    shift = np.uint64(32)
+    factor_high = np.uint64(factor >> 32)
+    factor_low = np.uint64(factor & 0xFFFFFFFF)
+    values_high = values >> shift
+    values_low = values & mask
+    low = values_low * factor_low
+    mid = values_high * factor_low + (low >> shift)
+    mid_2 = values_low * factor_high + (mid & mask)
+    return values_high * factor_high + (mid >> shift) + (mid_2 >> shift)
 
 
 _fractions_per_step = {
